@@ -238,9 +238,16 @@ Proof.
   - intros ->. rewrite Ho in Hx. inversion Hx; subst. congruence.
 Qed.
 
+(* what else a successful add leaves alone *)
+Definition others (k : kind) (db db' : database) : Prop :=
+  (forall k', k' <> k -> klist k' db' = klist k' db) /\ (k <> KTable -> d_table_dict db' = d_table_dict db).
+Definition dict_mono (db db' : database) : Prop :=
+  forall key t0, dict_get key (d_table_dict db) = Some t0 -> dict_get key (d_table_dict db') = Some t0.
+
 Lemma add_table_step_db h d db o t : InvDB h d db -> nth_error h o = Some (OTable t) ->
   rejected h (db_add_table d o h) \/
-  exists db' h', db_add_table d o h = (h', Ok tt) /\ InvDB h' d db' /\ klist KTable db' = klist KTable db ++ [o] /\ member h' d KTable o.
+  exists db' h', db_add_table d o h = (h', Ok tt) /\ InvDB h' d db' /\ klist KTable db' = klist KTable db ++ [o] /\ member h' d KTable o /\
+    others KTable db db' /\ dict_mono db db'.
 Proof.
   intros I Ho. pose proof (id_tables _ _ _ I) as IT. pose proof IT as [Idb _ _ _ _ _].
   assert (Ht : h_table h o = Some t) by (unfold h_table; rewrite Ho; reflexivity).
@@ -260,14 +267,20 @@ Proof.
     - intros k Nk. destruct k; try reflexivity. congruence.
     - intros x ob Hx A B. eapply (upd2_frame h d o db); eauto. }
   split; [exact ID|]. split; [reflexivity|].
-  apply (id_members _ _ _ ID KTable o). cbn. apply in_or_app. right. left. reflexivity.
+  split; [apply (id_members _ _ _ ID KTable o); cbn; apply in_or_app; right; left; reflexivity|].
+  split; [split; [intros k Nk; destruct k; try reflexivity; congruence|intros X; congruence]|].
+  intros key t0 Hg. cbn [d_table_dict db_with_tables]. rewrite add_table_dict_get_old; [exact Hg|].
+  unfold names_of. intros [X|X].
+  - subst key. apply dict_has_false in E2. congruence.
+  - destruct (truthy (t_alias t)) eqn:Ea; [|destruct X]. destruct X as [X|[]]. subst key.
+    cbn in E3. apply dict_has_false in E3. congruence.
 Qed.
 
 Lemma delete_table_step_db h d db o t : InvDB h d db -> nth_error h o = Some (OTable t) ->
   rejected h (db_delete_table d o h) \/
   exists db' h' p n ob, db_delete_table d o h = (h', Ok p) /\ InvDB h' d db' /\
      nth_error (klist KTable db) n = Some p /\ klist KTable db' = remove_nth n (klist KTable db) /\
-     nth_error h' p = Some ob /\ okind ob = Some KTable /\ oowner ob = None /\ ~ In p (klist KTable db').
+     nth_error h' p = Some ob /\ okind ob = Some KTable /\ oowner ob = None /\ ~ In p (klist KTable db') /\ others KTable db db'.
 Proof.
   intros I Ho. pose proof (id_tables _ _ _ I) as IT. pose proof IT as [Idb _ _ _ _ _].
   assert (Ht : h_table h o = Some t) by (unfold h_table; rewrite Ho; reflexivity).
@@ -275,7 +288,7 @@ Proof.
   { left. eexists; exact H. }
   right. destruct (delete_table_preserves h d db n p ptb IT Hp Hptb) as [IT' [Hpt Hnot]].
   exists (del_db db n ptb). eexists. exists p, n, (OTable (set_t_database None ptb)). split; [exact Hrun|].
-  split; [|split; [exact Hp|split; [reflexivity|split; [apply h_table_nth; exact Hpt|split; [reflexivity|split; [reflexivity|exact Hnot]]]]]].
+  split; [|split; [exact Hp|split; [reflexivity|split; [apply h_table_nth; exact Hpt|split; [reflexivity|split; [reflexivity|split; [exact Hnot|split; [intros k Nk; destruct k; try reflexivity; congruence|intros X; congruence]]]]]]]].
   eapply InvDB_table_step; [exact I|exact IT'| |].
   - intros k Nk. destruct k; try reflexivity. congruence.
   - intros x ob Hx A B. unfold del_heap. eapply (upd2_frame h d p db); eauto. apply h_table_nth; exact Hptb. reflexivity.
@@ -290,7 +303,7 @@ Proof. intros A B C D. rewrite (h_database_replace_nondb _ _ _ _ _ B C D). exact
 
 Lemma add_enum_step h d db o e : InvDB h d db -> nth_error h o = Some (OEnum e) ->
   rejected h (db_add_enum d o h) \/
-  exists db' h', db_add_enum d o h = (h', Ok tt) /\ InvDB h' d db' /\ klist KEnum db' = klist KEnum db ++ [o] /\ member h' d KEnum o.
+  exists db' h', db_add_enum d o h = (h', Ok tt) /\ InvDB h' d db' /\ klist KEnum db' = klist KEnum db ++ [o] /\ member h' d KEnum o /\ others KEnum db db'.
 Proof.
   intros I Ho. pose proof (id_tables _ _ _ I) as [Idb _ _ _ _ _].
   assert (He : h_enum h o = Some e) by (unfold h_enum; rewrite Ho; reflexivity).
@@ -303,12 +316,13 @@ Proof.
   { eapply add_generic_preserves with (k := KEnum); eauto; try reflexivity; try congruence; try kl_others.
     intros _. eapply list_has_refl_notin; [apply enum_eqb_refl|exact E1]. }
   eexists. eexists. split; [reflexivity|]. split; [exact ID|]. split; [reflexivity|].
-  apply (id_members _ _ _ ID KEnum o). cbn. apply in_or_app. right. left. reflexivity.
+  split; [apply (id_members _ _ _ ID KEnum o); cbn; apply in_or_app; right; left; reflexivity|].
+  split; [kl_others|reflexivity].
 Qed.
 
 Lemma add_group_step h d db o g : InvDB h d db -> nth_error h o = Some (OGroup g) ->
   rejected h (db_add_table_group d o h) \/
-  exists db' h', db_add_table_group d o h = (h', Ok tt) /\ InvDB h' d db' /\ klist KGroup db' = klist KGroup db ++ [o] /\ member h' d KGroup o.
+  exists db' h', db_add_table_group d o h = (h', Ok tt) /\ InvDB h' d db' /\ klist KGroup db' = klist KGroup db ++ [o] /\ member h' d KGroup o /\ others KGroup db db'.
 Proof.
   intros I Ho. pose proof (id_tables _ _ _ I) as [Idb _ _ _ _ _].
   assert (He : h_group h o = Some g) by (unfold h_group; rewrite Ho; reflexivity).
@@ -321,11 +335,12 @@ Proof.
   { eapply add_generic_preserves with (k := KGroup); eauto; try reflexivity; try congruence; try kl_others.
     intros _. eapply list_has_refl_notin; [apply Nat.eqb_refl|exact E1]. }
   eexists. eexists. split; [reflexivity|]. split; [exact ID|]. split; [reflexivity|].
-  apply (id_members _ _ _ ID KGroup o). cbn. apply in_or_app. right. left. reflexivity.
+  split; [apply (id_members _ _ _ ID KGroup o); cbn; apply in_or_app; right; left; reflexivity|].
+  split; [kl_others|reflexivity].
 Qed.
 
 Lemma add_sticky_step h d db o s : InvDB h d db -> nth_error h o = Some (OSticky s) ->
-  exists db' h', db_add_sticky_note d o h = (h', Ok tt) /\ InvDB h' d db' /\ klist KSticky db' = klist KSticky db ++ [o] /\ member h' d KSticky o.
+  exists db' h', db_add_sticky_note d o h = (h', Ok tt) /\ InvDB h' d db' /\ klist KSticky db' = klist KSticky db ++ [o] /\ member h' d KSticky o /\ others KSticky db db'.
 Proof.
   intros I Ho. pose proof (id_tables _ _ _ I) as [Idb _ _ _ _ _].
   unfold db_add_sticky_note, get_sticky, bindM. rewrite (lookup_ok _ _ _ Ho). cbv beta iota. unfold ret. cbv beta iota.
@@ -334,12 +349,13 @@ Proof.
   assert (ID : InvDB (upd2 h d o (db_with_sticky (d_sticky_notes db ++ [o]) db) (set_owner (Some d) (OSticky s))) d (db_with_sticky (d_sticky_notes db ++ [o]) db)).
   { eapply add_generic_preserves with (k := KSticky); eauto; try reflexivity; try congruence; try kl_others. }
   eexists. eexists. split; [reflexivity|]. split; [exact ID|]. split; [reflexivity|].
-  apply (id_members _ _ _ ID KSticky o). cbn. apply in_or_app. right. left. reflexivity.
+  split; [apply (id_members _ _ _ ID KSticky o); cbn; apply in_or_app; right; left; reflexivity|].
+  split; [kl_others|reflexivity].
 Qed.
 
 Lemma add_reference_step h d db o r : InvDB h d db -> nth_error h o = Some (OReference r) ->
   rejected h (db_add_reference d o h) \/
-  exists db' h', db_add_reference d o h = (h', Ok tt) /\ InvDB h' d db' /\ klist KRef db' = klist KRef db ++ [o] /\ member h' d KRef o.
+  exists db' h', db_add_reference d o h = (h', Ok tt) /\ InvDB h' d db' /\ klist KRef db' = klist KRef db ++ [o] /\ member h' d KRef o /\ others KRef db db'.
 Proof.
   intros I Ho. pose proof (id_tables _ _ _ I) as [Idb _ _ _ _ _].
   assert (He : h_reference h o = Some r) by (unfold h_reference; rewrite Ho; reflexivity).
@@ -354,7 +370,8 @@ Proof.
   { eapply add_generic_preserves with (k := KRef); eauto; try reflexivity; try congruence; try kl_others.
     intros _. eapply list_has_refl_notin; [apply ref_eqb_refl|exact E1]. }
   eexists. eexists. split; [reflexivity|]. split; [exact ID|]. split; [reflexivity|].
-  apply (id_members _ _ _ ID KRef o). cbn. apply in_or_app. right. left. reflexivity.
+  split; [apply (id_members _ _ _ ID KRef o); cbn; apply in_or_app; right; left; reflexivity|].
+  split; [kl_others|reflexivity].
 Qed.
 
 (* ====================== part 3 ====================== *)
@@ -369,7 +386,7 @@ Lemma delete_generic_step get set eq k h d db o :
   rejected h (db_delete_generic get set eq d o h) \/
   exists db' h' p n ob, db_delete_generic get set eq d o h = (h', Ok p) /\ InvDB h' d db' /\
      nth_error (klist k db) n = Some p /\ klist k db' = remove_nth n (klist k db) /\
-     nth_error h' p = Some ob /\ okind ob = Some k /\ oowner ob = None /\ ~ In p (klist k db').
+     nth_error h' p = Some ob /\ okind ob = Some k /\ oowner ob = None /\ ~ In p (klist k db') /\ others k db db'.
 Proof.
   intros I Nt Ns Eg Es Eo Et Ed. pose proof (id_tables _ _ _ I) as [Idb _ _ _ _ _].
   unfold db_delete_generic, bindM. rewrite (get_database_ok _ _ _ Idb). cbv beta iota. unfold get_heap. cbv beta iota.
@@ -389,14 +406,15 @@ Proof.
   { intros k' Nk. apply Eo; exact Nk. }
   destruct Hob as (ob & A & B & C).
   exists (set (remove_nth n (get db)) db). eexists. exists p, n, ob. split; [reflexivity|]. split; [exact ID|].
-  split; [exact Hp|]. split; [rewrite Es, Eg; reflexivity|]. split; [exact A|]. split; [exact B|]. split; [exact C|exact Hnot].
+  split; [exact Hp|]. split; [rewrite Es, Eg; reflexivity|]. split; [exact A|]. split; [exact B|]. split; [exact C|]. split; [exact Hnot|].
+  split; [intros k' Nk; apply Eo; exact Nk|intros _; apply Ed].
 Qed.
 
 Definition deleted_ok (k : kind) (h : heap) (d : oid) (db : database) (r : heap * res oid) : Prop :=
   rejected h r \/
   exists db' h' p n ob, r = (h', Ok p) /\ InvDB h' d db' /\
      nth_error (klist k db) n = Some p /\ klist k db' = remove_nth n (klist k db) /\
-     nth_error h' p = Some ob /\ okind ob = Some k /\ oowner ob = None /\ ~ In p (klist k db').
+     nth_error h' p = Some ob /\ okind ob = Some k /\ oowner ob = None /\ ~ In p (klist k db') /\ others k db db'.
 
 Lemma delete_reference_step h d db o : InvDB h d db -> deleted_ok KRef h d db (db_delete_reference d o h).
 Proof.
@@ -437,7 +455,8 @@ Proof.
   { intros k' N; destruct k'; try reflexivity; congruence. }
   destruct Hob as (ob & A & B & C).
   exists (db_with_project None db). eexists. exists p, 0, ob. split; [reflexivity|]. split; [exact ID|].
-  split; [exact Hp|]. split; [cbn; rewrite Ep; reflexivity|]. split; [exact A|]. split; [exact B|]. split; [exact C|exact Hnot].
+  split; [exact Hp|]. split; [cbn; rewrite Ep; reflexivity|]. split; [exact A|]. split; [exact B|]. split; [exact C|]. split; [exact Hnot|].
+  split; [intros k' N; destruct k'; try reflexivity; congruence|reflexivity].
 Qed.
 
 Lemma add_project_fresh h d db o ob : InvDB h d db -> nth_error h o = Some ob -> okind ob = Some KProject -> d_project db = None ->
@@ -451,7 +470,8 @@ Qed.
 
 Lemma add_project_step h d db o p0 : InvDB h d db -> nth_error h o = Some (OProject p0) ->
   exists db' h', db_add_project d o h = (h', Ok tt) /\ InvDB h' d db' /\ klist KProject db' = [o] /\ member h' d KProject o /\
-    (forall q, d_project db = Some q -> q <> o -> exists ob, nth_error h' q = Some ob /\ okind ob = Some KProject /\ oowner ob = None).
+    (forall q, d_project db = Some q -> q <> o -> exists ob, nth_error h' q = Some ob /\ okind ob = Some KProject /\ oowner ob = None) /\
+    others KProject db db'.
 Proof.
   intros I Ho. pose proof (id_tables _ _ _ I) as [Idb _ _ _ _ _].
   assert (Hod : o <> d). { intros ->. rewrite (h_database_nth _ _ _ Idb) in Ho. discriminate Ho. }
@@ -459,7 +479,7 @@ Proof.
   unfold bindM at 1. rewrite (get_database_ok _ _ _ Idb). cbv beta iota.
   destruct (d_project db) as [q|] eqn:Ep.
   - (* replace: the old project is deleted first *)
-    destruct (delete_project_step h d db I) as [[e He]|(db1 & h1 & p & n & pob' & Hrun & I1 & Hn & Hl & Hp1 & Hk1 & Ho1 & Hnot)].
+    destruct (delete_project_step h d db I) as [[e He]|(db1 & h1 & p & n & pob' & Hrun & I1 & Hn & Hl & Hp1 & Hk1 & Ho1 & Hnot & Hoth1)].
     { exfalso. unfold db_delete_project, bindM in He. rewrite (get_database_ok _ _ _ Idb) in He. cbv beta iota in He. rewrite Ep in He.
       rewrite (upd_db_ok _ _ db) in He by exact Idb. cbv beta iota in He.
       assert (Hqin : In q (klist KProject db)) by (cbn; rewrite Ep; left; reflexivity).
@@ -493,6 +513,10 @@ Proof.
     pose proof (add_project_fresh h1 d db1 o ob1 I1 Hob1 Hkob1 Ep1) as ID.
     eexists. eexists. split; [reflexivity|]. split; [exact ID|]. split; [reflexivity|].
     split; [apply (id_members _ _ _ ID KProject o); cbn; left; reflexivity|].
+    split.
+    2:{ destruct Hoth1 as [Ho1k Ho1d]. split.
+        - intros k' Nk. rewrite <- (Ho1k k' Nk). destruct k'; try reflexivity; congruence.
+        - intros _. cbn [d_table_dict db_with_project]. apply Ho1d. discriminate. }
     intros q' Eq' Nq. inversion Eq'; subst q'. exists pob'. split; [|auto].
     assert (Hqd : q <> d). { intros ->. rewrite (h_database_nth _ _ _ Idb1) in Hp1. inversion Hp1; subst. discriminate Hk1. }
     rewrite !nth_replace_other by congruence. exact Hp1.
@@ -501,7 +525,8 @@ Proof.
     rewrite (upd_db_ok _ _ db) by (eapply hdb_after_set; eauto).
     pose proof (add_project_fresh h d db o (OProject p0) I Ho eq_refl Ep) as ID.
     eexists. eexists. split; [reflexivity|]. split; [exact ID|]. split; [reflexivity|].
-    split; [apply (id_members _ _ _ ID KProject o); cbn; left; reflexivity|]. intros q Eq. discriminate Eq.
+    split; [apply (id_members _ _ _ ID KProject o); cbn; left; reflexivity|]. split; [intros q Eq; discriminate Eq|].
+    split; [intros k' N; destruct k'; try reflexivity; congruence|reflexivity].
 Qed.
 
 (* ====================== part 4 ====================== *)
@@ -525,30 +550,34 @@ Proof. intros H. unfold db_delete, bindM. rewrite (lookup_ok _ _ _ H). destruct 
 Lemma db_delete_missing h d o : nth_error h o = None -> db_delete d o h = (h, Raise (EStuck 1)).
 Proof. intros H. unfold db_delete, bindM, lookup. rewrite H. reflexivity. Qed.
 
-Ltac fin Hrun I' Hm Hl :=
+Ltac fin Hrun I' Hm Hl Hoth :=
   split; [exact Hrun|split; [exact I'|split; [reflexivity|split; [reflexivity|split; [exact Hm|
-    split; [try (intros _; exact Hl); try (intros X; exfalso; apply X; reflexivity)|try (intros _; exact Hl); try (intros X; discriminate X)]]]]]].
+    split; [try (intros _; exact Hl); try (intros X; exfalso; apply X; reflexivity)|
+    split; [try (intros _; exact Hl); try (intros X; discriminate X)|
+    split; [exact Hoth|try (let key := fresh in let t0 := fresh in let G := fresh in
+                             intros key t0 G; destruct Hoth as [_ Hd0]; rewrite Hd0 by discriminate; exact G)]]]]]]]].
 (* Database.add(obj): whatever obj is, the call is either rejected leaving the heap as it was, or obj (of kind k)
    is now the last member of its list (the project: the only one) and points to the database; the invariant holds again *)
 Theorem db_add_step h d db o : InvDB h d db ->
   rejected h (db_add d o h) \/
   exists db' h' ob k, db_add d o h = (h', Ok tt) /\ InvDB h' d db' /\ nth_error h o = Some ob /\ okind ob = Some k /\
-     member h' d k o /\ (k <> KProject -> klist k db' = klist k db ++ [o]) /\ (k = KProject -> klist k db' = [o]).
+     member h' d k o /\ (k <> KProject -> klist k db' = klist k db ++ [o]) /\ (k = KProject -> klist k db' = [o]) /\
+     others k db db' /\ dict_mono db db'.
 Proof.
   intros I. destruct (nth_error h o) as [ob|] eqn:Ho; [|left; rewrite (db_add_missing _ _ _ Ho); eexists; reflexivity].
   rewrite (db_add_dispatch _ _ _ _ Ho). destruct ob; try (left; eexists; reflexivity).
-  - destruct (add_table_step_db h d db o t I Ho) as [R|(db' & h' & Hrun & I' & Hl & Hm)]; [left; exact R|].
-    right. exists db', h', (OTable t), KTable. fin Hrun I' Hm Hl.
-  - destruct (add_reference_step h d db o r I Ho) as [R|(db' & h' & Hrun & I' & Hl & Hm)]; [left; exact R|].
-    right. exists db', h', (OReference r), KRef. fin Hrun I' Hm Hl.
-  - destruct (add_enum_step h d db o e I Ho) as [R|(db' & h' & Hrun & I' & Hl & Hm)]; [left; exact R|].
-    right. exists db', h', (OEnum e), KEnum. fin Hrun I' Hm Hl.
-  - destruct (add_sticky_step h d db o s I Ho) as (db' & h' & Hrun & I' & Hl & Hm).
-    right. exists db', h', (OSticky s), KSticky. fin Hrun I' Hm Hl.
-  - destruct (add_project_step h d db o p I Ho) as (db' & h' & Hrun & I' & Hl & Hm & _).
-    right. exists db', h', (OProject p), KProject. fin Hrun I' Hm Hl.
-  - destruct (add_group_step h d db o g I Ho) as [R|(db' & h' & Hrun & I' & Hl & Hm)]; [left; exact R|].
-    right. exists db', h', (OGroup g), KGroup. fin Hrun I' Hm Hl.
+  - destruct (add_table_step_db h d db o t I Ho) as [R|(db' & h' & Hrun & I' & Hl & Hm & Hoth & Hdm)]; [left; exact R|].
+    right. exists db', h', (OTable t), KTable. fin Hrun I' Hm Hl Hoth. exact Hdm.
+  - destruct (add_reference_step h d db o r I Ho) as [R|(db' & h' & Hrun & I' & Hl & Hm & Hoth)]; [left; exact R|].
+    right. exists db', h', (OReference r), KRef. fin Hrun I' Hm Hl Hoth.
+  - destruct (add_enum_step h d db o e I Ho) as [R|(db' & h' & Hrun & I' & Hl & Hm & Hoth)]; [left; exact R|].
+    right. exists db', h', (OEnum e), KEnum. fin Hrun I' Hm Hl Hoth.
+  - destruct (add_sticky_step h d db o s I Ho) as (db' & h' & Hrun & I' & Hl & Hm & Hoth).
+    right. exists db', h', (OSticky s), KSticky. fin Hrun I' Hm Hl Hoth.
+  - destruct (add_project_step h d db o p I Ho) as (db' & h' & Hrun & I' & Hl & Hm & _ & Hoth).
+    right. exists db', h', (OProject p), KProject. fin Hrun I' Hm Hl Hoth.
+  - destruct (add_group_step h d db o g I Ho) as [R|(db' & h' & Hrun & I' & Hl & Hm & Hoth)]; [left; exact R|].
+    right. exists db', h', (OGroup g), KGroup. fin Hrun I' Hm Hl Hoth.
 Qed.
 
 (* Database.delete(obj): rejected leaving the heap as it was, or exactly one member is removed from one list, it
